@@ -190,7 +190,7 @@ func applyVariableDefaults(request *requests.Request, operation *ast.OperationDe
 		if _, ok := request.Variables[vd.Variable]; ok {
 			continue
 		}
-		dv, err := vd.DefaultValue.Value(nil)
+		dv, err := defaultValueOf(vd.DefaultValue)
 		if err != nil {
 			continue
 		}
@@ -199,6 +199,34 @@ func applyVariableDefaults(request *requests.Request, operation *ast.OperationDe
 		}
 		request.Variables[vd.Variable] = dv
 	}
+}
+
+// defaultValueOf is ast.Value.Value for a constant, except that an empty list stays an empty list
+// (Value yields a nil slice, which travels as null)
+func defaultValueOf(v *ast.Value) (interface{}, error) {
+	switch v.Kind {
+	case ast.ListValue:
+		list := make([]interface{}, 0, len(v.Children))
+		for _, c := range v.Children {
+			e, err := defaultValueOf(c.Value)
+			if err != nil {
+				return nil, err
+			}
+			list = append(list, e)
+		}
+		return list, nil
+	case ast.ObjectValue:
+		object := make(map[string]interface{}, len(v.Children))
+		for _, c := range v.Children {
+			e, err := defaultValueOf(c.Value)
+			if err != nil {
+				return nil, err
+			}
+			object[c.Name] = e
+		}
+		return object, nil
+	}
+	return v.Value(nil)
 }
 
 // QueryHandler returns a http.HandlerFunc that should be used as the
